@@ -89,16 +89,20 @@ class Report:
             sys.stdout.flush()
             return 0
         shown = 0
-        for i, (key, what, replay) in enumerate(self.violations):
-            if shown >= 10:
+        seen = {}
+        for key, what, replay in self.violations:
+            seen.setdefault(key, []).append((what, replay))
+        for i, (key, lst) in enumerate(sorted(seen.items(), key=lambda kv: -len(kv[1]))):
+            if shown >= 12:
                 break
+            what, replay = lst[0]
             path = os.path.join(REPLAYS, '%s-%d.json' % (self.pid, i))
             with open(path, 'w') as f:
-                json.dump(dict(property=self.pid, key=key, what=what, replay=replay), f, indent=1, default=str)
+                json.dump(dict(property=self.pid, key=key, what=what, replay=replay, occurrences=len(lst)), f, indent=1, default=str)
             print('VIOLATION property=%s replay=%s' % (self.pid, path))
-            print('  %s: %s' % (key, what))
+            print('  %s (x%d): %s' % (key, len(lst), what[:400]))
             shown += 1
-        if len(self.violations) > shown:
-            print('  ... %d more violations' % (len(self.violations) - shown))
+        if len(seen) > shown:
+            print('  ... %d more distinct violation keys' % (len(seen) - shown))
         sys.stdout.flush()
         return 1
